@@ -117,6 +117,9 @@ var sqlAlphabet = []string{
 	"a", "e", "E", "n", "N", "q", "Q", "u", "x", "X", "b", "d", "f", "_", "z",
 	"--", "/*", "*/", "0x", "0b", "1e", "::", "$$", "''", "\\'", "@@", "<=>", "&&", "!!",
 	"or", "union", "select", "sp_password", "q'(", ")'", "u&'", "n'", "$a$", "/*!",
+	// runes that strings.ToUpper / ToLower fold into ASCII or change in length
+	// (U+0131, U+017F, U+0130, U+212A, U+0250 whose upper case is 3 bytes, U+00FF)
+	"\u0131", "\u017f", "\u0130", "\u212a", "\u0250", "\u00ff", "\xc4", "\xb1",
 }
 
 // one lexeme per token class (joined by a separator), to reach every folding rule
@@ -136,6 +139,7 @@ var sqlSeparators = []string{" ", " ", " ", "", "\t", "\n", "/**/", "\x00", "\xa
 var htmlAlphabet = []string{
 	"<", ">", "/", "=", "'", "\"", "`", "!", "-", "?", "%", "[", "]", "&", "#", ";", "\x00", " ", "\t", "\n",
 	"a", "x", "X", "1", ":", "\x80",
+	"\u0131", "\u017f", "\u0130", "\u212a", "\u0250", "\u00ff", "\xc4", "\xb1",
 	"script", "on", "onclick", "href", "style", "--", "[CDATA[", "]]>", "doctype", "&#x6a;", "&#106", "javascript:", "<!--", "-->", "<%", "%>", "<?", "xml", "import", "<a ", "src", "xmlns", "svg",
 }
 
@@ -204,9 +208,48 @@ func randomLexemes(r *rng, minLen, maxLen int) string {
 
 var mutationBytes = []byte{0x00, 0x80, 0xa0, 0xff, '\'', '"', '`', '\\', '-', '/', '*', '#', '$', '@', '<', '>', '=', '%', ']', '&', ';', ' ', '\n', 'q', 'N', '.', '0', '(', ')'}
 
+var foldRunes = []string{"\u0131", "\u017f", "\u0130", "\u212a", "\u0250", "\u00ff", "\u0131\u0131", "\u017f\u017f"}
+
+// unicodeRespell replaces some of s/S, i/I, k/K by U+017F, U+0131 / U+0130, U+212A:
+// the spellings that strings.ToUpper or strings.ToLower map back to the ASCII letter.
+func unicodeRespell(r *rng, s string) string {
+	var b strings.Builder
+	all := r.intn(2) == 0
+	for i := 0; i < len(s); i++ {
+		c := s[i]
+		if !all && r.intn(3) != 0 {
+			b.WriteByte(c)
+			continue
+		}
+		switch c {
+		case 's', 'S':
+			b.WriteString("\u017f")
+		case 'i':
+			b.WriteString("\u0131")
+		case 'I':
+			if r.intn(2) == 0 {
+				b.WriteString("\u0131")
+			} else {
+				b.WriteString("\u0130")
+			}
+		case 'k', 'K':
+			b.WriteString("\u212a")
+		default:
+			b.WriteByte(c)
+		}
+	}
+	return b.String()
+}
+
 func mutate(r *rng, s string) string {
 	b := []byte(s)
-	switch r.intn(8) {
+	switch r.intn(10) {
+	case 8: // respell letters with the runes that Unicode case mapping folds into them
+		return unicodeRespell(r, s)
+	case 9: // insert a rune whose case mapping changes its encoded length
+		i := r.intn(len(b) + 1)
+		ins := foldRunes[r.intn(len(foldRunes))]
+		return string(b[:i]) + ins + string(b[i:])
 	case 0: // flip a byte
 		if len(b) > 0 {
 			b[r.intn(len(b))] = mutationBytes[r.intn(len(mutationBytes))]
